@@ -102,6 +102,16 @@ Section C20.
       fsm_parse parse_float i argv = PAccept opts' args' ->
       fsm_parse parse_float (after_run i opts' args') argv = PAccept opts' args'.
   Proof. exact (rerun_same_line parse_float). Qed.
+
+  (** ... whose hypotheses follow from the declarations: built-in kinds with defaults of their kind, no environment
+      variable named, any spec, any line *)
+  Theorem C20_rerun_same_line_program :
+    forall ds spec i argv opts' args',
+      Forall decl_plain ds -> Forall (fun d => fields (d_env d) = []) ds ->
+      do_init parse_float getenv ds spec = IOk i ->
+      fsm_parse parse_float i argv = PAccept opts' args' ->
+      fsm_parse parse_float (after_run i opts' args') argv = PAccept opts' args'.
+  Proof. exact (rerun_same_line_program parse_float getenv). Qed.
 End C20.
 
 Example C20_rerun_with_env_refuted : q12_second_verdict = Some false.
@@ -177,5 +187,6 @@ Print Assumptions C20_sorted_visit_is_a_function.
 Print Assumptions C20_sorted_visit_is_a_function_args.
 Print Assumptions C20_fill_order_of_an_accepted_line_is_unique.
 Print Assumptions C20_rerun_same_line.
+Print Assumptions C20_rerun_same_line_program.
 Print Assumptions C20_noninterference.
 Print Assumptions C20_shared_store_is_read_only.
